@@ -20,6 +20,21 @@ macro_rules! vt_proof {
         pub fn $name() $body
     };
 }
+/// JSONB harness: base stubs + `core::str::from_utf8` restricted to ASCII (common::stub_from_utf8_ascii).
+#[macro_export]
+macro_rules! vt_proof_ascii {
+    (unwind = $u:expr; fn $name:ident() $body:block) => {
+        #[cfg(kani)]
+        #[kani::proof]
+        #[kani::stub(eyre::capture_handler, $crate::common::stub_capture_handler)]
+        #[kani::stub(alloc::fmt::format, $crate::common::stub_format)]
+        #[kani::stub(<eyre::Report as core::ops::Drop>::drop, $crate::common::stub_report_drop)]
+        #[kani::stub(core::arch::x86_64::__cpuid_count, $crate::common::stub_cpuid_noavx)]
+        #[kani::stub(core::str::validations::run_utf8_validation, $crate::common::stub_from_utf8_ascii)]
+        #[kani::unwind($u)]
+        pub fn $name() $body
+    };
+}
 /// Page-level harness: base stubs + `core::ptr::copy` as a byte loop (see common::stub_ptr_copy).
 #[macro_export]
 macro_rules! vt_proof_pg {
@@ -103,6 +118,7 @@ macro_rules! for_prefix {
 pub mod c08;
 pub mod c10;
 pub mod c11;
+pub mod c14;
 pub mod c15;
 pub mod c16;
 pub mod c20;
@@ -120,6 +136,7 @@ pub mod c28u;
 #[cfg(feature = "sp")]
 pub mod c30;
 pub mod c31;
+pub mod c32;
 pub mod c33;
 pub mod c39;
 #[cfg(feature = "sp")]
